@@ -22,7 +22,7 @@ NAME_STYLES = [
     lambda n: ["a", "ab", "bc", "c", "b", "abc", "ca", "1", "12", "2"][:n],     # prefix-related names: different sets of names can concatenate to the same string
     lambda n: ["", " ", "x", "  ", "\t", "y", " x", "x ", "0", "None"][:n],         # empty and blank names, names that differ only by surrounding blanks
     lambda n: ["a", "b-c", "a-b", "c", "x", "y-z", "x-y", "z", "p", "p-"][:n],      # separators inside names: joined labels of different pairs collide
-    lambda n: ["v1", "v01", "1", "01", "x7y", "x07y", "v10", "v010", "007", "7"][:n],  # numbers that differ only by leading zeros
+    lambda n: ["v9", "v10", "v1", "v01", "x2", "x10", "1", "01", "007", "7"][:n],  # numbers inside names: string order differs from numeric order, leading zeros
 ]
 def confusable_sets(names, maxsize=3):
     """groups of different vertex-id sets whose sorted names concatenate to the same string (keys built by joining names confuse them)"""
